@@ -509,6 +509,44 @@ func c19Render(decs []string) string {
 		if !sameStrings(got, wantN) {
 			return fmt.Sprintf("%s: All() = %q but rendered comments (second file of a file set) are %q", t.Name, want, got)
 		}
+		// ... and by a Restorer that restores the object graph too (Extras), when a name in the file has a
+		// hand-made object whose declaration lives elsewhere and carries comments of its own: those belong
+		// to no decoration list of this tree
+		var anchor *dst.Ident
+		dst.Inspect(f, func(n dst.Node) bool {
+			if id, ok := n.(*dst.Ident); ok && anchor == nil && id != f.Name {
+				anchor = id
+			}
+			return anchor == nil
+		})
+		if anchor != nil {
+			outside := &dst.ValueSpec{Names: []*dst.Ident{dst.NewIdent(anchor.Name)}, Type: dst.NewIdent("int")}
+			outside.Decs.Start.Append("// declared elsewhere")
+			outside.Decs.End.Append("/* not in this file */")
+			outside.Names[0].Decs.End.Append("/* nor this */")
+			anchor.Obj = &dst.Object{Kind: dst.Var, Name: anchor.Name, Decl: outside}
+			r = decorator.NewRestorer()
+			r.Extras = true
+			buf.Reset()
+			if msg := guard(func() { perr = r.Fprint(&buf, f) }); msg != "" || perr != nil {
+				return fmt.Sprintf("%s: rendering %q with Extras fails: %s %v", t.Name, want, msg, perr)
+			}
+			af, err = parser.ParseFile(token.NewFileSet(), "", buf.Bytes(), parser.ParseComments)
+			if err != nil {
+				return t.Name + ": text printed with Extras does not parse: " + err.Error()
+			}
+			got = nil
+			for _, cg := range af.Comments {
+				for _, cm := range cg.List {
+					if cm.Text != "// fixed" {
+						got = append(got, norm(cm.Text))
+					}
+				}
+			}
+			if !sameStrings(got, wantN) {
+				return fmt.Sprintf("%s: All() = %q but the comments rendered with Extras (a name declared outside the file) are %q", t.Name, want, got)
+			}
+		}
 	}
 	return ""
 }
